@@ -177,10 +177,15 @@ fn main() {
             args.get(2).map(|s| s.as_str()).unwrap_or(""),
             args.get(3).map(|s| s.as_str()).unwrap_or(""),
         ),
+        Some("bench-langs") => {
+            bench_langs();
+            0
+        }
         Some("dump-corpus") => {
             dump_corpus(seed_from_env(), args.get(2).and_then(|s| s.parse().ok()).unwrap_or(1500));
             0
         }
+        Some("reference-call") => c14run::reference_call_main(args.get(2).map(|s| s.as_str()).unwrap_or("")),
         Some("replay") => {
             let path = args.get(2).cloned().unwrap_or_default();
             let doc: Value = match std::fs::read_to_string(&path).ok().and_then(|s| serde_json::from_str(&s).ok()) {
@@ -212,4 +217,15 @@ fn dump_corpus(seed: u64, n: usize) {
     for (i, c) in c14::gen_corpus(seed, n).iter().enumerate() {
         println!("{i} {}", serde_json::to_string(c).unwrap());
     }
+}
+
+#[allow(dead_code)]
+fn bench_langs() {
+    let t = std::time::Instant::now();
+    let n = 2000;
+    for _ in 0..n {
+        let l = pools::Langs::new();
+        std::hint::black_box(&l);
+    }
+    println!("Langs::new: {:.1} us", t.elapsed().as_secs_f64() * 1e6 / n as f64);
 }
